@@ -410,6 +410,7 @@ func (interp *Interpreter) parse(src, name string, inc bool) (node ast.Node, err
 		if err != nil {
 			return nil, initialError
 		}
+		inFunc = true
 	}
 
 	if inFunc {
